@@ -59,6 +59,15 @@ func init() {
 		})
 	})
 	registerNorm("DecodeTypeArr", c07Norm)
+	// decode A, decode B, and only then render A's result
+	register("DecodeTypeArrPair", func(a []string) string {
+		oidA, _ := strconv.Atoi(a[1])
+		oidB, _ := strconv.Atoi(a[3])
+		ra := pgdump.DecodeType(unhex(a[0]), oidA)
+		rb := pgdump.DecodeType(unhex(a[2]), oidB)
+		return canon(ra) + ";" + canon(rb)
+	})
+	registerNorm("DecodeTypeArrPair", c07Norm)
 
 	register("decodeArray", func(a []string) string {
 		eoid, _ := strconv.Atoi(a[2])
